@@ -3,7 +3,7 @@ Model of the client-side stubs
   * `tarpc/src/client/stub/load_balance.rs` — `RoundRobin` (`AtomicCycle::next`: `fetch_add(1) % len`) and
     `ConsistentHash` (`hash_request(req) % stubs_len`),
   * `tarpc/src/client/stub/retry.rs` — `Retry` (`for i in 1.. { result = stub.call(ctx, Arc::clone(&request)).await;
-    if should_retry(&result, i) { continue } return result }`).
+    if should_retry(&result, i) { continue } return result }`; `ctx` is `Copy` and never reassigned).
 
 All three `call`s are `async fn`s: nothing of their body runs until the returned future is polled for the
 first time.  For `RoundRobin` that means the ticket (the value returned by `fetch_add`) is taken at the
@@ -79,12 +79,15 @@ structure LbSt where
   hseed   : Nat := 0                  -- seed of the harness hasher (consistent hash only)
   nextId  : Nat := 0
   pending : List (Nat × Nat) := []    -- call futures created and not yet polled: (call id, request)
+  results : List (Nat × Nat) := []    -- what each mock backend answers from now on: (backend, code); absent = 0
 deriving Repr
 
 inductive LbOp where
   | call (req : Nat)      -- `stub.call(ctx, req)`: creates the future, runs nothing
   | poll (id : Nat)       -- first poll of call future `id` (the mock backends answer at once)
   | drop (id : Nat)       -- drop call future `id` without ever polling it
+  | setResult (b k : Nat) -- from now on mock backend `b` answers with result code `k`
+                          -- (0 `Ok(req)`, 1 `Shutdown`, 2 `DeadlineExceeded`, 3 `Server(..)`)
 deriving Repr, DecidableEq
 
 inductive LbObs where
@@ -92,6 +95,8 @@ inductive LbObs where
   | picked (id backend req : Nat)     -- recorded by mock backend `backend`: it received `req` (for call `id`)
   | panicked (id : Nat)               -- the first poll panicked (remainder by zero)
   | dropped (id : Nat)
+  | resultSet (b k : Nat)             -- mock backend `b` (`< n`) now answers with code `k`
+  | answered (id k : Nat)             -- what the caller of call `id` got back (result code)
   | noop
 deriving Repr, DecidableEq
 
@@ -103,7 +108,11 @@ def erase (k : Nat) : List (Nat × Nat) → List (Nat × Nat)
   | [] => []
   | (k', v) :: m => if k' = k then erase k m else (k', v) :: erase k m
 
-/-- The body of `RoundRobin::call` / `ConsistentHash::call` up to the delegation. -/
+/-- The answer mock backend `b` currently gives (result code; 0 = `Ok`). -/
+def resultOf (b : Nat) (results : List (Nat × Nat)) : Nat := (lookup b results).getD 0
+
+/-- The body of `RoundRobin::call` / `ConsistentHash::call` up to the delegation.  Neither stub looks at
+what any backend answered before: `results` is not read here. -/
 def pickBackend (s : LbSt) (req : Nat) : LbSt × Option Nat :=
   match s.kind with
   | .rr => let (r, b) := s.rr.pick; ({ s with rr := r }, b)
@@ -122,8 +131,11 @@ def lbStep (s : LbSt) : LbOp → LbSt × List LbObs
       | some req =>
           let s := { s with pending := erase id s.pending }
           match pickBackend s req with
-          | (s, some b) => (s, [.picked id b req])
+          | (s, some b) => (s, [.picked id b req, .answered id (resultOf b s.results)])
           | (s, none) => (s, [.panicked id])
+  | .setResult b k =>
+      if b < s.rr.n then ({ s with results := (b, k) :: erase b s.results }, [.resultSet b k])
+      else (s, [.noop])
 
 def lbRun (s : LbSt) : List LbOp → LbSt × List LbObs
   | [] => (s, [])
@@ -136,9 +148,10 @@ def lbInit (kind : Kind) (n : Nat) (hseed : Nat := 0) : LbSt := { kind := kind, 
 
 /-! ## Retry -/
 
-/-- One completed attempt of the retry loop: what the backend was given, what it answered, the attempt
-number handed to the policy together with that answer, and the policy's decision. -/
-structure Attempt (Req Res : Type) where
+/-- One completed attempt of the retry loop: the context and request the backend was given, what it
+answered, the attempt number handed to the policy together with that answer, and the policy's decision. -/
+structure Attempt (Ctx Req Res : Type) where
+  ctx     : Ctx
   req     : Req
   result  : Res
   attempt : Nat
@@ -146,27 +159,40 @@ structure Attempt (Req Res : Type) where
 deriving Repr, DecidableEq
 
 /-- `Retry::call` from attempt number `i` on, against a backend that answers with the scripted results
-`rs` in order and then never answers.  The script doubles as the fuel of the loop (`for i in 1..` has no
-bound of its own): structural recursion on it.  Returns the log of completed attempts and the value
-returned to the caller (`none` = the call never completes because the backend stopped answering). -/
-def retryLoop {Req Res : Type} (policy : Res → Nat → Bool) (req : Req) :
-    Nat → List Res → List (Attempt Req Res) × Option Res
+`rs` in order and then never answers.  `ctx` is the caller's `context::Context` (a `Copy` value): the loop
+hands the very same value to every `self.stub.call(ctx, Arc::clone(&request))`.  The script doubles as the
+fuel of the loop (`for i in 1..` has no bound of its own): structural recursion on it.  Returns the log of
+completed attempts and the value returned to the caller (`none` = the call never completes because the
+backend stopped answering). -/
+def retryLoop {Ctx Req Res : Type} (policy : Res → Nat → Bool) (ctx : Ctx) (req : Req) :
+    Nat → List Res → List (Attempt Ctx Req Res) × Option Res
   | _, [] => ([], none)
   | i, r :: rs =>
       if policy r i then
-        let (l, o) := retryLoop policy req (i + 1) rs
-        (⟨req, r, i, true⟩ :: l, o)
-      else ([⟨req, r, i, false⟩], some r)
+        let (l, o) := retryLoop policy ctx req (i + 1) rs
+        (⟨ctx, req, r, i, true⟩ :: l, o)
+      else ([⟨ctx, req, r, i, false⟩], some r)
 
 /-- `Retry::call`: attempt numbers start at 1. -/
-def retryCall {Req Res : Type} (policy : Res → Nat → Bool) (req : Req) (rs : List Res) :
-    List (Attempt Req Res) × Option Res :=
-  retryLoop policy req 1 rs
+def retryCall {Ctx Req Res : Type} (policy : Res → Nat → Bool) (ctx : Ctx) (req : Req) (rs : List Res) :
+    List (Attempt Ctx Req Res) × Option Res :=
+  retryLoop policy ctx req 1 rs
 
-/-- Backend results used by the driver/harness: `Ok(v)` or the `k`-th error value. -/
+/-- Backend results used by the driver/harness: `Ok(v)`, the `k`-th error value (`Shutdown`,
+`DeadlineExceeded`, `Server(..)`), or `RpcError::Send(<boxed error k>)`. -/
 inductive Res where
   | ok (v : Nat)
   | err (k : Nat)
+  | send (k : Nat)
+deriving Repr, DecidableEq
+
+/-- What the harness's mock backend records of the `context::Context` it is called with: the deadline (ns
+after the script's base instant, under the virtual clock) and the trace context. -/
+structure RtCtx where
+  deadline : Nat := 0
+  traceId  : Nat := 0
+  spanId   : Nat := 0
+  sampled  : Bool := false
 deriving Repr, DecidableEq
 
 /-- Scriptable policies: kind 0 = decision table indexed by attempt number (declines beyond the table);
@@ -179,45 +205,60 @@ deriving Repr
 
 def Policy.eval (p : Policy) (r : Res) (i : Nat) : Bool :=
   if p.kind = 0 then p.table.getD (i - 1) false
-  else (match r with | .err _ => true | .ok _ => false) && decide (i < p.max)
+  else (match r with | .ok _ => false | _ => true) && decide (i < p.max)
 
 structure RtSt where
   policy  : Policy := {}
-  results : List Res := []      -- what the mock backend will answer next, in order
+  results : List (Res × Nat) := []   -- what the mock backend will answer next, and after how many ns
+  now     : Nat := 0                 -- virtual clock, ns after the script's base instant
 deriving Repr
 
 inductive RtOp where
-  | result (r : Res)      -- append to the backend's script
-  | decide (b : Bool)     -- append to the policy's decision table
-  | call (req : Nat)      -- run `Retry::call(ctx, req)` (one poll: the mock answers at once or never)
+  | result (r : Res) (delay : Nat)   -- append to the backend's script: answer `r` after `delay` ns
+  | decide (b : Bool)                -- append to the policy's decision table
+  /-- run `Retry::call(ctx, req)` with `ctx.deadline = now + d` and the given trace context -/
+  | call (req d traceId spanId : Nat) (sampled : Bool)
 deriving Repr, DecidableEq
 
 inductive RtObs where
-  | start (req : Nat)
+  | start (req now : Nat) (ctx : RtCtx)                 -- the caller's request and context
   | backend (req : Nat)                                 -- the mock backend received `*request`
+  | attempt (i now : Nat) (ctx : RtCtx)                 -- … as its `i`-th call of this episode, with `ctx`
   | policy (attempt : Nat) (r : Res) (retry : Bool)     -- `should_retry(&r, attempt)` returned `retry`
   | ret (r : Res)                                       -- `Retry::call` returned `r`
   | stuck                                               -- the backend's script ran out: the call stays pending
 deriving Repr, DecidableEq
 
-def attemptObs (a : Attempt Nat Res) : List RtObs := [.backend a.req, .policy a.attempt a.result a.retried]
+def attemptObs (now : Nat) (a : Attempt RtCtx Nat Res) : List RtObs :=
+  [.backend a.req, .attempt a.attempt now a.ctx, .policy a.attempt a.result a.retried]
 
-def flatObs : List (Attempt Nat Res) → List RtObs
-  | [] => []
-  | a :: l => attemptObs a ++ flatObs l
+/-- Observations of the completed attempts; `ds` are the backend's answer delays, `now` the time at which
+the first of them starts. -/
+def flatObs : Nat → List Nat → List (Attempt RtCtx Nat Res) → List RtObs
+  | _, _, [] => []
+  | now, ds, a :: l => attemptObs now a ++ flatObs (now + ds.headD 0) ds.tail l
 
-/-- How a call ends: it returns `r`, or the backend is called once more and never answers. -/
-def callTail (q : Nat) : Option Res → List RtObs
+/-- Sum of the first `k` delays. -/
+def sumTake : Nat → List Nat → Nat
+  | 0, _ => 0
+  | _, [] => 0
+  | k + 1, d :: ds => d + sumTake k ds
+
+/-- How a call ends: it returns `r`, or the backend is called once more (attempt `i`) and never answers. -/
+def callTail (q i now : Nat) (ctx : RtCtx) : Option Res → List RtObs
   | some r => [.ret r]
-  | none => [.backend q, .stuck]
+  | none => [.backend q, .attempt i now ctx, .stuck]
 
 def rtStep (s : RtSt) : RtOp → RtSt × List RtObs
-  | .result r => ({ s with results := s.results ++ [r] }, [])
+  | .result r d => ({ s with results := s.results ++ [(r, d)] }, [])
   | .decide b => ({ s with policy := { s.policy with table := s.policy.table ++ [b] } }, [])
-  | .call req =>
-      let (log, out) := retryCall s.policy.eval req s.results
-      ({ s with results := s.results.drop log.length },
-       [.start req] ++ flatObs log ++ callTail req out)
+  | .call req d tid span smp =>
+      let ctx : RtCtx := { deadline := s.now + d, traceId := tid, spanId := span, sampled := smp }
+      let ds := s.results.map (·.2)
+      let (log, out) := retryCall s.policy.eval ctx req (s.results.map (·.1))
+      let now' := s.now + sumTake log.length ds
+      ({ s with results := s.results.drop log.length, now := now' },
+       [.start req s.now ctx] ++ flatObs s.now ds log ++ callTail req (log.length + 1) now' ctx out)
 
 def rtRun (s : RtSt) : List RtOp → RtSt × List RtObs
   | [] => (s, [])
